@@ -29,6 +29,8 @@ type Prog struct {
 	// SharedOpen, when set, is an OpenFile performed by setup whose handle all
 	// threads share through SH.* steps.
 	SharedOpen *fsx.Call `json:"shared_open,omitempty"`
+	// Bound, when > 0, is the preemption bound of this program (default: the plan's).
+	Bound int `json:"bound,omitempty"`
 }
 
 func (p Prog) String() string {
